@@ -1189,7 +1189,7 @@ impl Unit {
 
 	pub(crate) fn deserialize(read: &mut impl io::Read) -> FResult<Self> {
 		let len = usize::deserialize(read)?;
-		let mut cs = Vec::with_capacity(len);
+		let mut cs = Vec::with_capacity(crate::serialize::prealloc(len));
 		for _ in 0..len {
 			cs.push(UnitExponent::deserialize(read)?);
 		}
